@@ -28,6 +28,18 @@ func vPath(h *zz.H, name string, minElems, maxElems int, withOrigin bool) *pb.Pa
 	return p
 }
 
+// vName draws one element name: an arbitrary string compared only for equality/order (atom) or,
+// with BYTES=n, a string of 1..n symbolic ASCII bytes whose content the code may inspect
+// (joining, prefix tests).
+func vName(h *zz.H, name string) string {
+	if b := h.Param("BYTES", 0); b > 0 {
+		s := h.Bytes(name, b)
+		h.Assume(s != "")
+		return s
+	}
+	return h.Atom(name)
+}
+
 func vNames(p *pb.Path) []string {
 	var r []string
 	for _, e := range p.GetElem() {
